@@ -26,13 +26,19 @@ UNITS = dict(pressure_mode='absolute', pressure_unit='bar', material_basis='mass
 # ---------------------------------------------------------------------------------------------
 # universe: abstract key -> concrete name, content token -> concrete content
 
+# Names are chosen so that the exact string is the key and nothing else is:
+#  * M1 / M2, A3 / A4, pa / pb, pm / pn, tp / tq, pi / pj differ ONLY in letter case (distinct keys of the dictionary)
+#  * A3 / A4 are therefore aliases of each other in the session registry (Adsorbate aliases are lower-cased names),
+#    A5 = 'N2' is a shipped alias of the standard adsorbate 'nitrogen', which every created file contains
+#  * no fixture isotherm refers to A3 / A4 / A5 (how an isotherm's adsorbate NAME is resolved through aliases when the
+#    object is built is not a matter of the store)
 NAMES = {
-    "ads": {"A1": "vgas alpha", "A2": "vgas_beta"},
-    "mats": {"M1": "vmat one", "M2": "vmat_two"},
-    "apt": {"pa": "vprop_ads"},
-    "mpt": {"pm": "vprop_mat"},
-    "ity": {"tp": "pointisotherm", "tm": "modelisotherm", "ti": "isotherm"},
-    "ipt": {"pi": "vprop_iso"},
+    "ads": {"A1": "vgas alpha", "A2": "vgas_beta", "A3": "vgas gamma", "A4": "VGAS GAMMA", "A5": "N2"},
+    "mats": {"M1": "vmat one", "M2": "VMAT ONE"},
+    "apt": {"pa": "vprop_ads", "pb": "VPROP_ADS"},
+    "mpt": {"pm": "vprop_mat", "pn": "VPROP_MAT"},
+    "ity": {"tp": "pointisotherm", "tm": "modelisotherm", "ti": "isotherm", "tq": "PointIsotherm"},
+    "ipt": {"pi": "vprop_iso", "pj": "VPROP_ISO"},
 }
 ADS_VER = {
     "a0": {},
